@@ -1,4 +1,6 @@
-package c05
+// Package idxsets holds the blob sets and the index instance wiring shared by
+// the index checks (C05 sequential/concurrent arrival orders, C14 concurrent feeding).
+package idxsets
 
 import (
 	"fmt"
@@ -18,7 +20,7 @@ type BlobSet struct {
 	Absent []hs.Blob
 }
 
-func sets() []BlobSet {
+func Sets() []BlobSet {
 	a, b := world.A(), world.B()
 	pn := a.Permanode("pn")
 	pn2 := a.Permanode("pn2")
